@@ -14,7 +14,9 @@ SPEC = {
                    "23% valid reports (0..3 approved programs, counters, stacks with frames, X over denormal..1.8e308 and "
                    "negative), 7% kind confusion (one added item of an otherwise valid report: a stack name used as counter, a counter "
                    "used as stack, a counter/stack of the other program, an expansion prefix without bucket, a bucket of another "
-                   "counter), invalid week (28 hostile strings: '../x', '2024-1-01', '2024-01-01/..', 11 characters, NUL, "
+                   "counter, an approved counter name + newline + free text as a plain counter, a whole stack record filed under "
+                   "Counters, stack names that contain an approved name only after the first newline or before CR/tab/space), "
+                   "invalid week (28 hostile strings: '../x', '2024-1-01', '2024-01-01/..', 11 characters, NUL, "
                    "non-UTF-8, paths into the neighbouring bucket), config not semver, X zero in 8 spellings (0, -0, 0e5, "
                    "1e-400..), X not a finite number (1e400, strings, null, NaN), one program field not approved (9 kinds), "
                    "null program entries, wrong member types, truncated JSON, trailing data, arbitrary bytes, unusual but "
